@@ -261,21 +261,34 @@ func ToInteger(p Primary) Primary {
 	case *Integer:
 		return NewInteger(val.Raw())
 	case *Float:
-		if math.IsNaN(val.Raw()) || math.IsInf(val.Raw(), 0) {
-			return NewNull()
+		if i, ok := float64ToInt64(val.Raw()); ok {
+			return NewInteger(i)
 		}
-		return NewInteger(int64(val.Raw()))
 	case *String:
 		s := option.TrimSpace(val.Raw())
 		if i, e := strconv.ParseInt(s, 10, 64); e == nil {
 			return NewInteger(i)
 		}
-		if f, e := strconv.ParseFloat(s, 64); e == nil && !math.IsNaN(f) && !math.IsInf(f, 0) {
-			return NewInteger(int64(f))
+		if f, e := strconv.ParseFloat(s, 64); e == nil {
+			if i, ok := float64ToInt64(f); ok {
+				return NewInteger(i)
+			}
 		}
 	}
 
 	return NewNull()
+}
+
+// float64ToInt64 truncates f to an integer. NaN, the infinities and the values
+// whose integral part does not fit into 64 bits are not integers: the result of
+// converting them is not defined by the language. The upper bound is exclusive
+// because 2^63 is a float64 (it is what float64(math.MaxInt64) rounds to) but
+// not an int64.
+func float64ToInt64(f float64) (int64, bool) {
+	if math.IsNaN(f) || f < -9223372036854775808.0 || 9223372036854775808.0 <= f {
+		return 0, false
+	}
+	return int64(f), true
 }
 
 func ToIntegerStrictly(p Primary) Primary {
